@@ -348,9 +348,19 @@ func c06(c *Ctx) {
 				// not in an iteration that deleted the key
 				dels := core.CallsTo(m.prune, batchDelete)
 				ok := true
+				// where the key is decoded (the store itself may come after the loop)
+				decodeBlocks := []*ssa.BasicBlock{ci.Block()}
+				core.Calls(m.prune, func(c2 ssa.CallInstruction) {
+					id := core.CalleeID(c2)
+					if strings.HasPrefix(id, u256Pfx) && (u256BE[strings.TrimPrefix(id, u256Pfx)] || u256LE[strings.TrimPrefix(id, u256Pfx)]) && len(c2.Common().Args) == 2 && isIterKey(c2.Common().Args[1]) {
+						decodeBlocks = append(decodeBlocks, c2.Block())
+					}
+				})
 				for _, d := range dels {
-					if d.Block() == ci.Block() || (d.Block().Dominates(ci.Block())) {
-						ok = false
+					for _, db := range decodeBlocks {
+						if d.Block() == db || (d.Block().Dominates(db) && core.InLoop(db) && db != ci.Block()) || (db == ci.Block() && d.Block().Dominates(db) && core.InLoop(db)) {
+							ok = false
+						}
 					}
 				}
 				r.Check(ok, "R5.radius-writers", key, p.Pos(ci.Pos()), "prune: decoded from the key of the first item kept", "the radius is taken from a key that is deleted in the same iteration")
@@ -370,6 +380,21 @@ func derivesFromBoth(v ssa.Value, fn *ssa.Function) bool {
 // decodedFromIterKey: val is a *uint256.Int on which a byte decoder was called with Iterator.Key().
 func decodedFromIterKey(fn *ssa.Function, val ssa.Value) bool {
 	obj := core.Unwrap(val)
+	// a variable that is nil until the decoded value is assigned (`var b *Int; ...; b = dis`): every
+	// non-nil value it can hold must be such a decoded object
+	if ph, ok := obj.(*ssa.Phi); ok {
+		n := 0
+		for _, e := range ph.Edges {
+			if core.IsNilConst(e) || e == ssa.Value(ph) {
+				continue
+			}
+			n++
+			if !decodedFromIterKey(fn, e) {
+				return false
+			}
+		}
+		return n > 0
+	}
 	found := false
 	core.Calls(fn, func(ci ssa.CallInstruction) {
 		id := core.CalleeID(ci)
@@ -393,7 +418,7 @@ func decodedFromIterKey(fn *ssa.Function, val ssa.Value) bool {
 func c17(c *Ctx) {
 	p, r := c.P, c.R
 	r.Technique = "structural write-grouping analysis over go/ssa: same-batch identity of the item and size-record writes, single commit after both, no direct DB writes, synced prune commit; open-time gates by must-pass-through (cut) checks"
-	r.Explanation = "Decides the write-grouping and open-time structure that crash consistency rests on (nothing is executed, no crash point is enumerated): (R1) in Put the size record and the item are set on the same batch, which is committed exactly once after both, and no store code writes to the database outside a batch; (R2) in prune all deletes and the size record go to one batch committed with Sync=true; (R3) on open: the radius is initialised to the maximum before anything is read, the usage counter is restored from the size record, size > capacity leads to prune (C05.R2), the radius is replaced only under size > 95% of capacity by a value decoded from Iterator.Last's key, and every failing database call returns its error (no half-initialised store); (R4) Get returns only (a copy of) bytes read from the database (no cache layer). Not decided: the enumeration of crash points and file-system semantics, and pebble's WAL atomicity itself."
+	r.Explanation = "Decides the write-grouping and open-time structure that crash consistency rests on (nothing is executed, no crash point is enumerated): (R1) in Put the size record and the item are set on the same batch, which is committed exactly once after both, what Put adds to the usage figure is len(id)+len(value) of the item on every path, and no store code writes to the database outside a batch; (R2) in prune all deletes and the size record go to one batch committed with Sync=true; (R3) on open: the radius is initialised to the maximum before anything is read, the usage counter is restored from the size record, size > capacity leads to prune (C05.R2), the radius is replaced only under size > 95% of capacity by a value decoded from Iterator.Last's key, and every failing database call returns its error (no half-initialised store); (R4) Get returns only (a copy of) bytes read from the database (no cache layer). Not decided: the enumeration of crash points and file-system semantics, and pebble's WAL atomicity itself."
 	r.Assumptions = []string{"pebble: a batch commit is atomic in the WAL; Sync=true makes it durable before returning"}
 	r.Floor("R1.put-batch", 4)
 	r.Floor("R2.prune-batch", 3)
@@ -436,6 +461,16 @@ func c17(c *Ctx) {
 			w := core.AllSuccessPass(m.put, g, call.Block())
 			r.Check(w == nil, "R1.put-batch", core.FuncName(m.put)+" commit-error", p.Pos(call.Pos()), "a failed commit is reported", "Put can report success although the commit failed: "+p.PathString(w))
 		}
+	}
+	// the usage figure written with the item counts the item: what Put adds to the counter is
+	// len(id)+len(value) of what it writes, on every path (a smaller amount makes the persisted
+	// figure under-report for good: no prune at runtime, none on open)
+	if adds := m.sizeOps(m.put, "Add"); len(adds) == 1 {
+		arg := adds[0].Common().Args[1]
+		ok, note := sumOfLens(arg, func(v ssa.Value) bool { return v == ssa.Value(m.put.Params[2]) }, func(v ssa.Value) bool { return v == ssa.Value(m.put.Params[3]) })
+		r.Check(ok, "R1.put-batch", core.FuncName(m.put)+" figure-counts-the-item", p.Pos(adds[0].Pos()), "the usage figure grows by len(content id)+len(content)"+note, "the usage figure persisted with an item does not grow by the item's bytes on every path: it can under-report what is on disk, and neither the running store nor the next open prunes")
+	} else {
+		r.Fail("R1.put-batch", core.FuncName(m.put)+" figure-counts-the-item", p.Pos(m.put.Pos()), fmt.Sprintf("expected one addition to the usage counter in Put, found %d", len(adds)))
 	}
 	// no direct DB writes in the store's package
 	ndirect := 0
